@@ -84,7 +84,7 @@ pub fn run(cfg: &RunCfg) -> Ctx {
     all.merge(par_cases(cfg, "response", cfg.n(16_000, 16 * 600_000), || (), |_, rng, ctx, _| response_case(rng, ctx)));
     all.merge(par_cases(cfg, "request", cfg.n(16_000, 16 * 600_000), || (), |_, rng, ctx, _| request_case(rng, ctx)));
     all.merge(seq_cases(cfg, "matrix", 7 * 3 * 10, |_, ctx, i| matrix_case(ctx, i)));
-    for k in ["resp.text", "resp.binary", "resp.frame_split_across_chunks", "resp.trailers_with_colon", "req.text", "req.binary", "req.text.cut_mod4.1", "req.text.cut_mod4.2", "req.text.cut_mod4.3", "req.cut_inside_prefix", "matrix.405", "matrix.400", "matrix.passthrough", "matrix.grpcweb"] {
+    for k in ["resp.text", "resp.binary", "resp.frame_split_across_chunks", "resp.trailers_with_colon", "resp.empty_trailers_block", "req.text", "req.binary", "req.text.cut_mod4.1", "req.text.cut_mod4.2", "req.text.cut_mod4.3", "req.cut_inside_prefix", "matrix.405", "matrix.400", "matrix.passthrough", "matrix.grpcweb"] {
         all.floor(k, 5);
     }
     all
@@ -140,7 +140,15 @@ fn decode_web_response(chunks: &[Vec<u8>], text: bool) -> Result<(Vec<u8>, Vec<V
 fn response_case(rng: &mut Rng, ctx: &mut Ctx) {
     let n = rng.urange(0, 4);
     let frames: Vec<(u8, Vec<u8>)> = (0..n).map(|_| (rng.chance(1, 4) as u8, rng.payload_of(if small() { &[0usize, 1, 2, 3, 5, 30] } else { &[0usize, 1, 2, 3, 5, 100, 3000] }))).collect();
-    let trailers = gen_trailers(rng);
+    // "any trailers": also an empty block, or one without a grpc-status
+    let trailers = match rng.below(14) {
+        0 => Vec::new(),
+        1 => gen_trailers(rng).into_iter().filter(|(k, _)| k != "grpc-status").collect(),
+        _ => gen_trailers(rng),
+    };
+    if trailers.is_empty() {
+        ctx.count("resp.empty_trailers_block");
+    }
     let mut grpc = Vec::new();
     let mut starts = Vec::new();
     for (f, p) in &frames {
